@@ -1,6 +1,1084 @@
-pub fn gen(_seed: u64, _thorough: bool) -> Vec<String> {
-    vec![]
+//! C09: headers survive serialisation.
+//!
+//! Case kinds (tokens separated by blanks):
+//!   `P <opt> <fl> <w0> <w1> ...`   a word stream (u32, little endian on disk, magic included)
+//!                                   opt: s|p (strict|permissive), upper case = skip_magic_bytes
+//!                                   fl : file_len or `-`
+//!   `K <I|V|C> <Format> <w> <h> <d> <op>...`  constructor + builder chain
+//!                                   op: S:w:h | D:w:h:d|- | M:m | X
+//!   `X <hdr>`                       to_dx9 / to_dx10 on a header (canonical header token)
+//!   `TD <code>` `TF <fourcc>` `TM <Format>`   table rows (exhaustive part of the tie)
+//!
+//! Canonical header token:
+//!   `9:w:h:d|-:mips:caps2:F:fourcc` | `9:w:h:d|-:mips:caps2:M:flags:bits:r:g:b:a`
+//!   `10:w:h:d|-:mips:dxgi:dim:misc:array:alpha`
+use crate::c02::Px;
+use crate::common::*;
+use dds::header::*;
+use dds::*;
+use std::io::Cursor;
+use std::num::NonZeroU32;
+
+// ---------------------------------------------------------------------------------------------
+// canonical text
+
+pub fn fmt_opt(d: Option<u32>) -> String {
+    match d {
+        Some(x) => x.to_string(),
+        None => "-".into(),
+    }
 }
-pub fn run(_line: &str) -> Option<(String, Vec<String>)> {
-    None
+
+pub fn fmt_header(h: &Header) -> String {
+    match h {
+        Header::Dx9(x) => {
+            let pf = match &x.pixel_format {
+                Dx9PixelFormat::FourCC(c) => format!("F:{}", c.0),
+                Dx9PixelFormat::Mask(m) => format!(
+                    "M:{}:{}:{}:{}:{}:{}",
+                    m.flags.bits(),
+                    u32::from(m.rgb_bit_count),
+                    m.r_bit_mask,
+                    m.g_bit_mask,
+                    m.b_bit_mask,
+                    m.a_bit_mask
+                ),
+            };
+            format!(
+                "9:{}:{}:{}:{}:{}:{}",
+                x.width,
+                x.height,
+                fmt_opt(x.depth),
+                x.mipmap_count.get(),
+                x.caps2.bits(),
+                pf
+            )
+        }
+        Header::Dx10(x) => format!(
+            "10:{}:{}:{}:{}:{}:{}:{}:{}:{}",
+            x.width,
+            x.height,
+            fmt_opt(x.depth),
+            x.mipmap_count.get(),
+            u32::from(x.dxgi_format),
+            u32::from(x.resource_dimension),
+            x.misc_flag.bits(),
+            x.array_size,
+            u32::from(x.alpha_mode)
+        ),
+    }
+}
+
+pub fn parse_header(s: &str) -> Option<Header> {
+    let p: Vec<&str> = s.split(':').collect();
+    let n = |i: usize| -> Option<u32> { p.get(i)?.parse().ok() };
+    let d = |i: usize| -> Option<Option<u32>> {
+        let t = p.get(i)?;
+        if *t == "-" {
+            Some(None)
+        } else {
+            Some(Some(t.parse().ok()?))
+        }
+    };
+    match *p.first()? {
+        "9" => {
+            let pf = match *p.get(6)? {
+                "F" if p.len() == 8 => Dx9PixelFormat::FourCC(FourCC(n(7)?)),
+                "M" if p.len() == 13 => Dx9PixelFormat::Mask(MaskPixelFormat {
+                    flags: PixelFormatFlags::from_bits_retain(n(7)?),
+                    rgb_bit_count: RgbBitCount::try_from(n(8)?).ok()?,
+                    r_bit_mask: n(9)?,
+                    g_bit_mask: n(10)?,
+                    b_bit_mask: n(11)?,
+                    a_bit_mask: n(12)?,
+                }),
+                _ => return None,
+            };
+            Some(Header::Dx9(Dx9Header {
+                width: n(1)?,
+                height: n(2)?,
+                depth: d(3)?,
+                mipmap_count: NonZeroU32::new(n(4)?)?,
+                caps2: Caps2::from_bits_retain(n(5)?),
+                pixel_format: pf,
+            }))
+        }
+        "10" if p.len() == 10 => Some(Header::Dx10(Dx10Header {
+            width: n(1)?,
+            height: n(2)?,
+            depth: d(3)?,
+            mipmap_count: NonZeroU32::new(n(4)?)?,
+            dxgi_format: DxgiFormat::try_from(n(5)?).ok()?,
+            resource_dimension: ResourceDimension::try_from(n(6)?).ok()?,
+            misc_flag: MiscFlags::from_bits_retain(n(7)?),
+            array_size: n(8)?,
+            alpha_mode: AlphaMode::try_from(n(9)?).ok()?,
+        })),
+        _ => None,
+    }
+}
+
+pub fn fmt_err(e: &HeaderError) -> String {
+    match e {
+        HeaderError::InvalidMagicBytes(b) => format!("err:InvalidMagicBytes:{}", u32::from_le_bytes(*b)),
+        HeaderError::InvalidHeaderSize(n) => format!("err:InvalidHeaderSize:{n}"),
+        HeaderError::InvalidPixelFormatSize(n) => format!("err:InvalidPixelFormatSize:{n}"),
+        HeaderError::InvalidRgbBitCount(n) => format!("err:InvalidRgbBitCount:{n}"),
+        HeaderError::InvalidDxgiFormat(n) => format!("err:InvalidDxgiFormat:{n}"),
+        HeaderError::InvalidResourceDimension(n) => format!("err:InvalidResourceDimension:{n}"),
+        HeaderError::InvalidAlphaMode(n) => format!("err:InvalidAlphaMode:{n}"),
+        HeaderError::InvalidArraySizeForTexture3D(n) => format!("err:InvalidArraySizeForTexture3D:{n}"),
+        HeaderError::Io(_) => "err:Io".into(),
+        #[allow(unreachable_patterns)]
+        _ => "err:other".into(),
+    }
+}
+
+pub fn fmt_px(p: Option<PixelInfo>) -> String {
+    match p {
+        Some(i) => Px::from_info(i).fmt(),
+        None => "-".into(),
+    }
+}
+
+pub fn px_of(h: &Header) -> Option<PixelInfo> {
+    PixelInfo::from_header(h).ok()
+}
+
+/// `DataLayout::from_header(h).data_len()`
+pub fn data_len(h: &Header) -> Option<u64> {
+    DataLayout::from_header(h).ok().map(|l| l.data_len())
+}
+
+/// summary of `DataLayout::from_header`
+pub fn fmt_layout(h: &Header) -> String {
+    let px = match px_of(h) {
+        Some(p) => p,
+        None => return "nopx".into(),
+    };
+    match DataLayout::from_header_with(h, px) {
+        Err(e) => {
+            let name = match e {
+                LayoutError::TooManyMipMaps(_) => "TooManyMipMaps",
+                LayoutError::MissingDepth => "MissingDepth",
+                LayoutError::ZeroDimension => "ZeroDimension",
+                LayoutError::ArraySizeTooBig(_) => "ArraySizeTooBig",
+                LayoutError::DataLayoutTooBig => "DataLayoutTooBig",
+                LayoutError::InvalidCubeMapFaces => "InvalidCubeMapFaces",
+                #[allow(unreachable_patterns)]
+                _ => "other",
+            };
+            format!("err:{name}")
+        }
+        Ok(l) => match l {
+            DataLayout::Texture(t) => format!("T:{}x{}:{}:{}", t.main().width(), t.main().height(), t.mipmaps(), t.data_len()),
+            DataLayout::Volume(v) => {
+                let m = v.main();
+                format!("V:{}x{}x{}:{}:{}", m.width(), m.height(), m.depth(), v.mipmaps(), v.data_len())
+            }
+            DataLayout::TextureArray(a) => {
+                let k = match a.kind() {
+                    TextureArrayKind::Textures => "T".to_string(),
+                    TextureArrayKind::CubeMaps => "C".to_string(),
+                    TextureArrayKind::PartialCubeMap(f) => format!("P{}", f.bits()),
+                };
+                format!(
+                    "A{}:{}:{}x{}:{}:{}",
+                    k,
+                    a.len(),
+                    a.size().width,
+                    a.size().height,
+                    a.mipmaps(),
+                    a.data_len()
+                )
+            }
+        },
+    }
+}
+
+pub fn words_to_bytes(ws: &[u32]) -> Vec<u8> {
+    let mut v = Vec::with_capacity(ws.len() * 4);
+    for w in ws {
+        v.extend_from_slice(&w.to_le_bytes());
+    }
+    v
+}
+pub fn bytes_to_words(bs: &[u8]) -> Vec<u32> {
+    bs.chunks_exact(4).map(|c| u32::from_le_bytes([c[0], c[1], c[2], c[3]])).collect()
+}
+
+pub fn header_words(h: &Header) -> Vec<u32> {
+    let mut v = Vec::new();
+    h.write(&mut v).unwrap();
+    bytes_to_words(&v)
+}
+
+pub struct Opts {
+    pub permissive: bool,
+    pub skip_magic: bool,
+    pub file_len: Option<u64>,
+}
+impl Opts {
+    pub fn parse(o: &str, fl: &str) -> Option<Opts> {
+        let (permissive, skip_magic) = match o {
+            "s" => (false, false),
+            "p" => (true, false),
+            "S" => (false, true),
+            "P" => (true, true),
+            _ => return None,
+        };
+        let file_len = if fl == "-" { None } else { Some(p_u64(fl)?) };
+        Some(Opts { permissive, skip_magic, file_len })
+    }
+    pub fn to_options(&self) -> ParseOptions {
+        let mut o = ParseOptions::default();
+        o.permissive = self.permissive;
+        o.skip_magic_bytes = self.skip_magic;
+        o.file_len = self.file_len;
+        o
+    }
+}
+
+/// `Header::read` over a byte image; also returns the number of bytes left unread
+pub fn read_header(bytes: &[u8], o: &ParseOptions) -> (Result<Header, HeaderError>, usize) {
+    let mut c = Cursor::new(bytes);
+    let r = Header::read(&mut c, o);
+    let left = bytes.len() - (c.position() as usize).min(bytes.len());
+    (r, left)
+}
+
+/// The round-trip part shared by P and K cases: `len=.. W=.. rr=...` and the C09 oracle.
+/// rr: re-read of the written bytes equals the header in strict / permissive(None) /
+/// permissive(true file length) mode (`x` when the header has no layout, i.e. no true length).
+pub fn roundtrip(h: &Header, oracle: &mut Vec<String>) -> String {
+    let mut bytes = Vec::new();
+    h.write(&mut bytes).unwrap();
+    let want = 4 + h.byte_len();
+    if bytes.len() != want || (want != 128 && want != 148) || bytes[..4] != Header::MAGIC {
+        oracle.push(format!("written image has {} bytes / wrong magic (expected magic + {})", bytes.len(), want - 4));
+    }
+    let len = data_len(h);
+    let mut rr = String::new();
+    let mut modes: Vec<(&str, ParseOptions)> = vec![
+        ("strict", ParseOptions::default()),
+        ("permissive", ParseOptions::new_permissive(None)),
+    ];
+    if let Some(l) = len {
+        if let Some(fl) = l.checked_add(bytes.len() as u64) {
+            modes.push(("permissive+file_len", ParseOptions::new_permissive(Some(fl))));
+        }
+    }
+    for (name, o) in &modes {
+        let (r, left) = read_header(&bytes, o);
+        match r {
+            Ok(h2) if h2 == *h && left == 0 => rr.push('1'),
+            Ok(h2) => {
+                rr.push('0');
+                oracle.push(format!(
+                    "write->read ({name}) is not the identity: wrote {} read {} ({} bytes unread)",
+                    fmt_header(h),
+                    fmt_header(&h2),
+                    left
+                ));
+            }
+            Err(e) => {
+                rr.push('0');
+                oracle.push(format!("write->read ({name}) fails: wrote {} got {}", fmt_header(h), fmt_err(&e)));
+            }
+        }
+    }
+    if modes.len() == 2 {
+        rr.push('x');
+    }
+    // raw header: read -> write is bit-for-bit
+    let mut c = Cursor::new(&bytes[4..]);
+    match RawHeader::read(&mut c) {
+        Ok(raw) => {
+            let mut out = Vec::new();
+            raw.write(&mut out).unwrap();
+            if out != bytes[4..] {
+                oracle.push("RawHeader read->write of a written header is not bit-for-bit".into());
+            }
+            if raw != h.to_raw() {
+                oracle.push("RawHeader::read(write(to_raw h)) != to_raw h".into());
+            }
+        }
+        Err(_) => oracle.push("RawHeader::read fails on a written header".into()),
+    }
+    let ws: Vec<String> = bytes_to_words(&bytes).iter().map(|w| w.to_string()).collect();
+    format!("len={} W={} rr={}", len.map(|l| l.to_string()).unwrap_or("-".into()), ws.join(","), rr)
+}
+
+// ---------------------------------------------------------------------------------------------
+// formats
+
+macro_rules! formats {
+    ($($n:ident),+) => { pub const FORMATS: &[(&str, Format)] = &[$((stringify!($n), Format::$n)),+]; };
+}
+formats!(
+    R8G8B8_UNORM, B8G8R8_UNORM, R8G8B8A8_UNORM, R8G8B8A8_SNORM, B8G8R8A8_UNORM, B8G8R8X8_UNORM,
+    B5G6R5_UNORM, B5G5R5A1_UNORM, B4G4R4A4_UNORM, A4B4G4R4_UNORM, R8_SNORM, R8_UNORM, R8G8_UNORM,
+    R8G8_SNORM, A8_UNORM, R16_UNORM, R16_SNORM, R16G16_UNORM, R16G16_SNORM, R16G16B16A16_UNORM,
+    R16G16B16A16_SNORM, R10G10B10A2_UNORM, R11G11B10_FLOAT, R9G9B9E5_SHAREDEXP, R16_FLOAT,
+    R16G16_FLOAT, R16G16B16A16_FLOAT, R32_FLOAT, R32G32_FLOAT, R32G32B32_FLOAT, R32G32B32A32_FLOAT,
+    R10G10B10_XR_BIAS_A2_UNORM, AYUV, Y410, Y416, R1_UNORM, R8G8_B8G8_UNORM, G8R8_G8B8_UNORM, UYVY,
+    YUY2, Y210, Y216, NV12, P010, P016, BC1_UNORM, BC2_UNORM, BC2_UNORM_PREMULTIPLIED_ALPHA,
+    BC3_UNORM, BC3_UNORM_PREMULTIPLIED_ALPHA, BC4_UNORM, BC4_SNORM, BC5_UNORM, BC5_SNORM, BC6H_UF16,
+    BC6H_SF16, BC7_UNORM, ASTC_4X4_UNORM, ASTC_5X4_UNORM, ASTC_5X5_UNORM, ASTC_6X5_UNORM,
+    ASTC_6X6_UNORM, ASTC_8X5_UNORM, ASTC_8X6_UNORM, ASTC_8X8_UNORM, ASTC_10X5_UNORM,
+    ASTC_10X6_UNORM, ASTC_10X8_UNORM, ASTC_10X10_UNORM, ASTC_12X10_UNORM, ASTC_12X12_UNORM,
+    BC3_UNORM_RXGB, BC3_UNORM_NORMAL
+);
+
+pub fn format_by_name(s: &str) -> Option<Format> {
+    FORMATS.iter().find(|(n, _)| *n == s).map(|(_, f)| *f)
+}
+pub fn format_name(f: Format) -> &'static str {
+    FORMATS.iter().find(|(_, g)| *g == f).map(|(n, _)| *n).unwrap_or("?")
+}
+
+pub const KNOWN_FOURCC: &[u32] = &[
+    0x31545844, 0x32545844, 0x33545844, 0x34545844, 0x35545844, 0x42475852, 0x30315844, 0x31495441,
+    0x55344342, 0x53344342, 0x32495441, 0x55354342, 0x53354342, 0x47424752, 0x42475247, 0x32595559,
+    0x59565955, 36, 110, 111, 112, 113, 114, 115, 116,
+];
+
+/// (flags, bit count, r, g, b, a) of the rows of detect.rs KNOWN_PIXEL_FORMATS (inputs only)
+pub const MASK_ROWS: &[(u32, u32, u32, u32, u32, u32)] = &[
+    (0x2, 8, 0, 0, 0, 0xFF),
+    (0x20000, 8, 0xFF, 0, 0, 0),
+    (0x20040, 8, 0xFF, 0, 0, 0),
+    (0x20000, 16, 0xFFFF, 0, 0, 0),
+    (0x40, 16, 0xF800, 0x07E0, 0x001F, 0),
+    (0x40, 32, 0xFF0000, 0xFF00, 0xFF, 0),
+    (0x40, 32, 0xFFFF, 0xFFFF0000, 0, 0),
+    (0x40, 16, 0xFF, 0xFF00, 0, 0),
+    (0x40, 24, 0xFF0000, 0xFF00, 0xFF, 0),
+    (0x40, 24, 0xFF, 0xFF00, 0xFF0000, 0),
+    (0x41, 16, 0xF00, 0xF0, 0xF, 0xF000),
+    (0x41, 16, 0x7C00, 0x3E0, 0x1F, 0x8000),
+    (0x41, 32, 0xFF0000, 0xFF00, 0xFF, 0xFF000000),
+    (0x41, 32, 0xFF, 0xFF00, 0xFF0000, 0xFF000000),
+    (0x41, 32, 0x3FF00000, 0xFFC00, 0x3FF, 0xC0000000),
+    (0x80000, 32, 0xFF, 0xFF00, 0xFF0000, 0xFF000000),
+    (0x80000, 16, 0xFF, 0xFF00, 0, 0),
+    (0x80000, 32, 0xFFFF, 0xFFFF0000, 0, 0),
+    (0x20001, 16, 0xFF, 0, 0, 0xFF00),
+];
+
+// ---------------------------------------------------------------------------------------------
+// run
+
+fn run_p(t: &[&str]) -> Option<(String, Vec<String>)> {
+    let o = Opts::parse(t.get(1)?, t.get(2)?)?;
+    let mut ws = Vec::new();
+    for s in &t[3..] {
+        ws.push(p_u32(s)?);
+    }
+    let bytes = words_to_bytes(&ws);
+    let mut oracle = vec![];
+    let (r, left) = read_header(&bytes, &o.to_options());
+    let mut out = match &r {
+        Ok(h) => format!("ok {} rest={} {}", fmt_header(h), left / 4, roundtrip(h, &mut oracle)),
+        Err(e) => fmt_err(e),
+    };
+    // raw header over the same stream
+    let skip = if o.skip_magic { 0 } else { 4.min(bytes.len()) };
+    let mut c = Cursor::new(&bytes[skip..]);
+    match RawHeader::read(&mut c) {
+        Ok(raw) => {
+            let used = c.position() as usize;
+            let mut w = Vec::new();
+            raw.write(&mut w).unwrap();
+            let same = w == bytes[skip..skip + used];
+            if !same {
+                oracle.push("RawHeader::read -> write is not bit-for-bit on this image".into());
+            }
+            // and the other direction on the value
+            let mut c2 = Cursor::new(&w);
+            match RawHeader::read(&mut c2) {
+                Ok(raw2) if raw2 == raw => {}
+                _ => oracle.push("RawHeader::write -> read does not give the value back".into()),
+            }
+            out += &format!(" raw={}:{}", used / 4, same as u8);
+        }
+        Err(_) => out += " raw=eof",
+    }
+    Some((out, oracle))
+}
+
+pub enum Op {
+    S(u32, u32),
+    D(u32, u32, Option<u32>),
+    M(u32),
+    X,
+}
+pub fn parse_op(s: &str) -> Option<Op> {
+    let p: Vec<&str> = s.split(':').collect();
+    let n = |i: usize| -> Option<u32> { p.get(i)?.parse().ok() };
+    match p[0] {
+        "S" => Some(Op::S(n(1)?, n(2)?)),
+        "D" => Some(Op::D(n(1)?, n(2)?, if *p.get(3)? == "-" { None } else { Some(n(3)?) })),
+        "M" => Some(Op::M(n(1)?)),
+        "X" => Some(Op::X),
+        _ => None,
+    }
+}
+
+fn run_k(t: &[&str]) -> Option<(String, Vec<String>)> {
+    let f = format_by_name(t.get(2)?)?;
+    let (w, h, d) = (p_u32(t.get(3)?)?, p_u32(t.get(4)?)?, p_u32(t.get(5)?)?);
+    let mut ops = vec![];
+    for s in &t[6..] {
+        ops.push(parse_op(s)?);
+    }
+    let ctor = t[1].to_string();
+    let built = std::panic::catch_unwind(move || {
+        let mut hd = match ctor.as_str() {
+            "I" => Header::new_image(w, h, f),
+            "V" => Header::new_volume(w, h, d, f),
+            _ => Header::new_cube_map(w, h, f),
+        };
+        for op in ops {
+            hd = match op {
+                Op::S(a, b) => hd.with_size(Size::new(a, b)),
+                Op::D(a, b, c) => hd.with_dimensions(a, b, c),
+                Op::M(0) => return None,
+                Op::M(m) => hd.with_mipmap_count(m),
+                Op::X => hd.with_mipmaps(),
+            };
+        }
+        Some(hd)
+    });
+    if !matches!(t[1], "I" | "V" | "C") {
+        return None;
+    }
+    let mut oracle = vec![];
+    let out = match built {
+        Ok(Some(hd)) => format!("ok {} {}", fmt_header(&hd), roundtrip(&hd, &mut oracle)),
+        Ok(None) => "panic-mip0".to_string(),
+        Err(e) => {
+            oracle.push(format!("constructor/builder chain panicked: {}", panic_msg(&e)));
+            "panic".to_string()
+        }
+    };
+    Some((out, oracle))
+}
+
+fn same_shape(a: &Header, b: &Header) -> bool {
+    a.width() == b.width() && a.height() == b.height() && a.depth() == b.depth() && a.mipmap_count() == b.mipmap_count()
+}
+
+fn run_x(t: &[&str]) -> Option<(String, Vec<String>)> {
+    let h = parse_header(t.get(1)?)?;
+    let mut oracle = vec![];
+    let d9 = h.to_dx9().map(Header::Dx9);
+    let d10 = h.to_dx10().map(Header::Dx10);
+    let f = |x: &Option<Header>| x.as_ref().map(fmt_header).unwrap_or("-".into());
+    let fpx = |x: &Option<Header>| x.as_ref().map(|y| fmt_px(px_of(y))).unwrap_or("-".into());
+    let fl = |x: &Option<Header>| x.as_ref().map(fmt_layout).unwrap_or("-".into());
+    for (name, c) in [("to_dx9", &d9), ("to_dx10", &d10)] {
+        if let Some(c) = c {
+            if !same_shape(&h, c) {
+                oracle.push(format!("{name} changes dimensions or mip count: {} -> {}", fmt_header(&h), fmt_header(c)));
+            }
+            if px_of(&h) != px_of(c) {
+                oracle.push(format!("{name} changes the pixel info: {} -> {}", fmt_px(px_of(&h)), fmt_px(px_of(c))));
+            }
+            // 2D, cube and volume resources keep the data layout (1D resources are flattened to
+            // height 1 only in the DX10 form)
+            let is_1d = matches!(&h, Header::Dx10(x) if x.resource_dimension == ResourceDimension::Texture1D);
+            if !is_1d {
+                let (la, lb) = (DataLayout::from_header(&h).ok(), DataLayout::from_header(c).ok());
+                if la != lb {
+                    oracle.push(format!("{name} changes the data layout: {} -> {}", fmt_layout(&h), fmt_layout(c)));
+                }
+            }
+        }
+    }
+    // converting a header to its own form is the identity
+    match &h {
+        Header::Dx9(_) if d9.as_ref() != Some(&h) => oracle.push("to_dx9 of a DX9 header is not the identity".into()),
+        Header::Dx10(_) if d10.as_ref() != Some(&h) => oracle.push("to_dx10 of a DX10 header is not the identity".into()),
+        _ => {}
+    }
+    let out = format!(
+        "d9={} d10={} px={} px9={} px10={} lay={} lay9={} lay10={}",
+        f(&d9),
+        f(&d10),
+        fmt_px(px_of(&h)),
+        fpx(&d9),
+        fpx(&d10),
+        fmt_layout(&h),
+        fl(&d9),
+        fl(&d10)
+    );
+    Some((out, oracle))
+}
+
+fn fmt_pf(p: &Dx9PixelFormat) -> String {
+    let h = Header::Dx9(Dx9Header::new_image(1, 1, p.clone()));
+    let s = fmt_header(&h);
+    // strip "9:1:1:-:1:0:"
+    s.splitn(7, ':').nth(6).unwrap().to_string()
+}
+
+fn run_td(t: &[&str]) -> Option<(String, Vec<String>)> {
+    let code = p_u32(t.get(1)?)?;
+    let out = match DxgiFormat::try_from(code) {
+        Err(_) => "invalid".to_string(),
+        Ok(d) => {
+            let px = PixelInfo::try_from(d).ok();
+            let to9 = Dx10Header::new_image(1, 1, d).with_alpha_mode(AlphaMode::Unknown).to_dx9();
+            let to9p = Dx10Header::new_image(1, 1, d).with_alpha_mode(AlphaMode::Premultiplied).to_dx9();
+            format!(
+                "valid px={} lin={} alpha={} fmt={} to9={} to9p={}",
+                fmt_px(px),
+                u32::from(d.to_linear()),
+                d.has_alpha() as u8,
+                Format::from_dxgi(d).map(format_name).unwrap_or("-"),
+                to9.map(|x| fmt_pf(&x.pixel_format)).unwrap_or("-".into()),
+                to9p.map(|x| fmt_pf(&x.pixel_format)).unwrap_or("-".into()),
+            )
+        }
+    };
+    Some((out, vec![]))
+}
+
+fn run_tf(t: &[&str]) -> Option<(String, Vec<String>)> {
+    let c = FourCC(p_u32(t.get(1)?)?);
+    let h = Header::Dx9(Dx9Header::new_image(1, 1, Dx9PixelFormat::FourCC(c)));
+    let out = format!(
+        "fmt={} px={} dxgi={} alpha={}",
+        Format::from_four_cc(c).map(format_name).unwrap_or("-"),
+        fmt_px(px_of(&h)),
+        h.to_dx10().map(|x| u32::from(x.dxgi_format).to_string()).unwrap_or("-".into()),
+        u32::from(h.alpha_mode()),
+    );
+    Some((out, vec![]))
+}
+
+fn run_tm(t: &[&str]) -> Option<(String, Vec<String>)> {
+    let f = format_by_name(t.get(1)?)?;
+    let out = format!(
+        "dxgi={} fcc={} mask={} px={}",
+        DxgiFormat::try_from(f).map(|d| u32::from(d).to_string()).unwrap_or("-".into()),
+        FourCC::try_from(f).map(|c| c.0.to_string()).unwrap_or("-".into()),
+        MaskPixelFormat::try_from(f).map(|m| fmt_pf(&Dx9PixelFormat::Mask(m))).unwrap_or("-".into()),
+        fmt_px(Some(PixelInfo::from(f))),
+    );
+    Some((out, vec![]))
+}
+
+pub fn run(line: &str) -> Option<(String, Vec<String>)> {
+    let t = toks(line);
+    match *t.first()? {
+        "P" => run_p(&t),
+        "K" => run_k(&t),
+        "X" => run_x(&t),
+        "TD" => run_td(&t),
+        "TF" => run_tf(&t),
+        "TM" => run_tm(&t),
+        _ => None,
+    }
+}
+
+// ---------------------------------------------------------------------------------------------
+// generation
+
+pub const W_SIZE: usize = 1;
+pub const W_FLAGS: usize = 2;
+pub const W_HEIGHT: usize = 3;
+pub const W_WIDTH: usize = 4;
+pub const W_PITCH: usize = 5;
+pub const W_DEPTH: usize = 6;
+pub const W_MIPS: usize = 7;
+pub const W_PF_SIZE: usize = 19;
+pub const W_PF_FLAGS: usize = 20;
+pub const W_FOURCC: usize = 21;
+pub const W_BITCOUNT: usize = 22;
+pub const W_RMASK: usize = 23;
+pub const W_CAPS: usize = 27;
+pub const W_CAPS2: usize = 28;
+pub const W_DXGI: usize = 32;
+pub const W_DIM: usize = 33;
+pub const W_MISC: usize = 34;
+pub const W_ARRAY: usize = 35;
+pub const W_MISC2: usize = 36;
+
+pub fn p_line(opt: &str, fl: Option<u64>, ws: &[u32]) -> String {
+    let w: Vec<String> = ws.iter().map(|x| x.to_string()).collect();
+    format!("P {} {} {}", opt, fl.map(|x| x.to_string()).unwrap_or("-".into()), w.join(" "))
+}
+
+/// the true file length of a word image, if it parses strictly and has a layout
+pub fn true_len(ws: &[u32]) -> Option<u64> {
+    let bytes = words_to_bytes(ws);
+    let (r, left) = read_header(&bytes, &ParseOptions::default());
+    let h = r.ok()?;
+    Some((bytes.len() - left) as u64 + data_len(&h)?)
+}
+
+pub fn small_dim(rng: &mut Rng) -> u32 {
+    match rng.below(8) {
+        0 => 1,
+        1 => rng.range(1, 8) as u32,
+        2 => 1 << rng.below(10),
+        3 => (1 << rng.below(10)) + 1,
+        4 => rng.range(1, 70) as u32,
+        5 => rng.range(1, 300) as u32,
+        6 => rng.range(1, 2100) as u32,
+        _ => rng.range(1, 17) as u32,
+    }
+}
+
+pub fn valid_dxgi_codes() -> Vec<u32> {
+    (0..256).filter(|c| DxgiFormat::try_from(*c).is_ok()).collect()
+}
+
+/// a random well-formed header with a plausible (small) geometry
+pub fn random_header(rng: &mut Rng, dxgi: &[u32]) -> Header {
+    let (w, h) = (small_dim(rng), small_dim(rng));
+    let full = 32 - w.max(h).leading_zeros();
+    let mips = match rng.below(5) {
+        0 | 1 => 1,
+        2 => full,
+        3 => rng.range(1, full as u64) as u32,
+        _ => rng.range(1, 14) as u32,
+    };
+    let depth = if rng.chance(1, 3) { Some(rng.range(1, 9) as u32) } else { None };
+    let mipmap_count = NonZeroU32::new(mips.max(1)).unwrap();
+    if rng.chance(1, 2) {
+        let vol = rng.chance(1, 4);
+        let cube = !vol && rng.chance(1, 3);
+        Header::Dx10(Dx10Header {
+            width: w,
+            height: h,
+            depth: if vol { Some(depth.unwrap_or(3)) } else { depth.filter(|_| rng.chance(1, 8)) },
+            mipmap_count,
+            dxgi_format: DxgiFormat::try_from(*rng.pick(dxgi)).unwrap(),
+            resource_dimension: if vol {
+                ResourceDimension::Texture3D
+            } else if rng.chance(1, 8) {
+                ResourceDimension::Texture1D
+            } else {
+                ResourceDimension::Texture2D
+            },
+            misc_flag: MiscFlags::from_bits_retain(if cube { 4 } else { 0 }),
+            array_size: if vol { 1 } else { *rng.pick(&[1, 1, 1, 2, 3, 6, 7]) },
+            alpha_mode: AlphaMode::try_from(rng.below(5) as u32).unwrap(),
+        })
+    } else {
+        let pf = if rng.chance(1, 2) {
+            Dx9PixelFormat::FourCC(FourCC(*rng.pick(&KNOWN_FOURCC.iter().copied().filter(|c| *c != 0x30315844).collect::<Vec<_>>())))
+        } else {
+            let r = *rng.pick(MASK_ROWS);
+            Dx9PixelFormat::Mask(MaskPixelFormat {
+                flags: PixelFormatFlags::from_bits_retain(r.0),
+                rgb_bit_count: RgbBitCount::try_from(r.1).unwrap(),
+                r_bit_mask: r.2,
+                g_bit_mask: r.3,
+                b_bit_mask: r.4,
+                a_bit_mask: r.5,
+            })
+        };
+        let caps2 = match rng.below(6) {
+            0 => 0x200000,
+            1 => 0xFE00,
+            2 => 0x200 | ((rng.below(64) as u32) << 10),
+            _ => 0,
+        };
+        Header::Dx9(Dx9Header {
+            width: w,
+            height: h,
+            depth: if caps2 == 0x200000 { Some(depth.unwrap_or(2)) } else { depth.filter(|_| rng.chance(1, 8)) },
+            mipmap_count,
+            caps2: Caps2::from_bits_retain(caps2),
+            pixel_format: pf,
+        })
+    }
+}
+
+fn field_values(rng: &mut Rng, bset: &[u32]) -> u32 {
+    any_u32(rng, bset)
+}
+
+const OPTS: &[&str] = &["s", "p"];
+
+pub fn gen(seed: u64, thorough: bool) -> Vec<String> {
+    let mut rng = Rng::new(seed ^ 0xC09);
+    let bset = boundary_u32();
+    let dxgi = valid_dxgi_codes();
+    let mut out = vec![];
+
+    // ---- tables: exhaustive
+    for c in 0..=300u32 {
+        out.push(format!("TD {c}"));
+    }
+    for c in [u32::MAX, 1 << 8, (1 << 8) + 28, 0x1_0000 + 71, 1 << 31] {
+        out.push(format!("TD {c}"));
+    }
+    for c in KNOWN_FOURCC {
+        out.push(format!("TF {c}"));
+        out.push(format!("TF {}", c ^ 0x20)); // case flipped in the first byte
+        out.push(format!("TF {}", c.wrapping_add(1)));
+    }
+    for c in 0..130u32 {
+        out.push(format!("TF {c}"));
+    }
+    for _ in 0..100 {
+        out.push(format!("TF {}", any_u32(&mut rng, &bset)));
+    }
+    for (n, _) in FORMATS {
+        out.push(format!("TM {n}"));
+    }
+
+    // ---- constructors x builder chains
+    let dims: &[u32] = &[0, 1, 2, 3, 4, 5, 7, 8, 15, 16, 17, 255, 256, 257, 1023, 1024, 65535, 65536, 0x7FFF_FFFF, 0x8000_0000, u32::MAX];
+    for (n, _) in FORMATS {
+        for ctor in ["I", "V", "C"] {
+            out.push(format!("K {ctor} {n} 16 9 5"));
+            out.push(format!("K {ctor} {n} 16 9 5 X"));
+            out.push(format!("K {ctor} {n} 1 1 1 M:3 S:7:300"));
+            out.push(format!("K {ctor} {n} 4 4 4 D:5:6:7 X"));
+            out.push(format!("K {ctor} {n} 4 4 4 D:5:6:- M:4294967295"));
+        }
+    }
+    for &w in dims {
+        for &h in &[0u32, 1, 3, 256, u32::MAX] {
+            for &d in &[0u32, 1, 4, 100_000, u32::MAX] {
+                let f = rng.pick(FORMATS).0;
+                let ctor = *rng.pick(&["I", "V", "C"]);
+                out.push(format!("K {ctor} {f} {w} {h} {d} X"));
+                out.push(format!("K {ctor} {f} 2 2 2 D:{w}:{h}:{d} X"));
+            }
+        }
+    }
+    out.push("K I BC1_UNORM 4 4 1 M:0".into());
+    out.push("K V R8_UNORM 4 4 1 X M:0 X".into());
+    let nk = if thorough { 60_000 } else { 3_000 };
+    for _ in 0..nk {
+        let f = rng.pick(FORMATS).0;
+        let ctor = *rng.pick(&["I", "V", "C"]);
+        let mut l = format!(
+            "K {ctor} {f} {} {} {}",
+            any_u32(&mut rng, &bset),
+            any_u32(&mut rng, &bset),
+            any_u32(&mut rng, &bset)
+        );
+        for _ in 0..rng.below(5) {
+            let (a, b, c) = (any_u32(&mut rng, &bset), any_u32(&mut rng, &bset), any_u32(&mut rng, &bset));
+            l += &match rng.below(5) {
+                0 => format!(" S:{a}:{b}"),
+                1 => format!(" D:{a}:{b}:{c}"),
+                2 => format!(" D:{a}:{b}:-"),
+                3 => format!(" M:{}", if rng.chance(1, 30) { 0 } else { c.max(1) }),
+                _ => " X".to_string(),
+            };
+        }
+        out.push(l);
+    }
+
+    // ---- raw word images
+    let base10 = header_words(&Header::new_image(20, 12, Format::BC1_UNORM).with_mipmap_count(3));
+    let base9f = header_words(&Header::new_image(20, 12, Format::BC3_UNORM_RXGB).with_mipmap_count(3));
+    let base9m = header_words(&Header::new_image(20, 12, Format::B8G8R8_UNORM).with_mipmap_count(3));
+    let basev = header_words(&Header::new_volume(8, 8, 4, Format::R8G8B8A8_UNORM).with_mipmaps());
+    let basec = header_words(&Header::new_cube_map(8, 8, Format::BC7_UNORM));
+    let bases = [&base10, &base9f, &base9m, &basev, &basec];
+    let bvals: Vec<u32> = {
+        let mut v = vec![0u32, 1, 2, 3, 4, 5, 6, 7, 8, 16, 24, 31, 32, 33, 124, 125, 255, 256, 257];
+        for k in [15u32, 16, 24, 31] {
+            v.push((1 << k) - 1);
+            v.push(1 << k);
+        }
+        v.push(u32::MAX);
+        v.push(u32::MAX - 1);
+        v
+    };
+    // every word of every base set to every boundary value, all modes
+    for b in bases {
+        for i in 0..b.len() {
+            for &v in &bvals {
+                let mut ws = (*b).clone();
+                ws[i] = v;
+                let tl = true_len(&ws);
+                let o = OPTS[(i + v as usize) % 2];
+                out.push(p_line(o, None, &ws));
+                if (i + v as usize) % 3 == 0 {
+                    out.push(p_line("p", tl.or(Some(128 + 4 * v as u64)), &ws));
+                }
+            }
+        }
+        // truncation at every word count, with and without magic
+        for n in 0..=b.len() {
+            out.push(p_line(OPTS[n % 2], None, &b[..n]));
+            if n >= 1 {
+                out.push(p_line(["S", "P"][n % 2], None, &b[1..n]));
+            }
+        }
+        // trailing data words stay unread
+        let mut ws = (*b).clone();
+        ws.extend_from_slice(&[1, 2, 3, 4, 5, 6, 7]);
+        out.push(p_line("s", None, &ws));
+        out.push(p_line("p", Some(4 * ws.len() as u64), &ws));
+        // wrong magic
+        let mut ws = (*b).clone();
+        ws[0] ^= 0x100;
+        out.push(p_line("s", None, &ws));
+        out.push(p_line("S", None, &ws));
+    }
+    // all flag combinations that parsing looks at
+    for depth in [0u32, 0x800000] {
+        for mc in [0u32, 0x20000] {
+            for caps in [0u32, 0x8, 0x400000, 0x400008, 0x1000] {
+                for mips in [0u32, 1, 5, 300] {
+                    for b in [&base10, &base9m, &basev] {
+                        let mut ws = (*b).clone();
+                        ws[W_FLAGS] = 0x1007 | depth | mc | (rng.below(2) as u32) << 3;
+                        ws[W_CAPS] = caps;
+                        ws[W_MIPS] = mips;
+                        out.push(p_line(OPTS[(mips as usize + caps as usize) % 2], None, &ws));
+                    }
+                }
+            }
+        }
+    }
+    // pixel format flag combinations x sizes x bit counts x four CCs
+    let pf_flag_bits = [0x1u32, 0x2, 0x4, 0x20, 0x40, 0x200, 0x20000, 0x40000, 0x80000];
+    for m in 0..(1u32 << pf_flag_bits.len()) {
+        let mut f = 0;
+        for (i, b) in pf_flag_bits.iter().enumerate() {
+            if m >> i & 1 == 1 {
+                f |= b;
+            }
+        }
+        let mut ws = if m % 2 == 0 { base9m.clone() } else { base9f.clone() };
+        ws[W_PF_FLAGS] = f;
+        ws[W_BITCOUNT] = *rng.pick(&[0, 0, 8, 16, 24, 32, 1, 64]);
+        if m % 5 == 0 {
+            ws[W_FOURCC] = *rng.pick(&[0, 0x30315844, 0x31545844, 7]);
+        }
+        if f & 4 != 0 && ws[W_FOURCC] == 0x30315844 {
+            ws.extend_from_slice(&[28, 3, 0, 1, 0]);
+        }
+        out.push(p_line(OPTS[(m as usize / 2) % 2], None, &ws));
+    }
+    for size in [124u32, 24, 0, 123, 125, 148] {
+        for pfs in [32u32, 0, 24, 31, 8] {
+            for b in [&base10, &base9f] {
+                for o in OPTS {
+                    let mut ws = (*b).clone();
+                    ws[W_SIZE] = size;
+                    ws[W_PF_SIZE] = pfs;
+                    out.push(p_line(o, None, &ws));
+                }
+            }
+        }
+    }
+    // the four-CC-without-flag repair
+    for &cc in KNOWN_FOURCC.iter().chain([0u32, 1, u32::MAX].iter()) {
+        for flags in [0u32, 0x40, 0x4, 0x41] {
+            for bc in [0u32, 8, 32] {
+                let mut ws = base9f.clone();
+                ws[W_FOURCC] = cc;
+                ws[W_PF_FLAGS] = flags;
+                ws[W_BITCOUNT] = bc;
+                if flags & 4 != 0 && cc == 0x30315844 {
+                    ws.extend_from_slice(&[71, 3, 0, 1, 0]);
+                }
+                out.push(p_line("s", None, &ws));
+                out.push(p_line("p", None, &ws));
+            }
+        }
+    }
+    // DX10 extension: every code x dimension x misc x array x alpha (pairwise-ish)
+    let mut k = 0usize;
+    for code in (0..200u32).chain([255, 256, 257, u32::MAX]) {
+        for dim in [2u32, 3, 4, 0, 1, 5] {
+            for misc in [0u32, 4, 1, 0xFFFF_FFFF] {
+                k += 1;
+                let arrays = [0u32, 1, 2, 6, 7, 715_827_883, u32::MAX];
+                let array = arrays[k % arrays.len()];
+                let alpha = [0u32, 1, 2, 3, 4, 5, 6, 7, 8, 13, 0xFFFF_FFF8, u32::MAX][k % 12];
+                let mut ws = if dim == 4 { basev.clone() } else { base10.clone() };
+                ws[W_DXGI] = code;
+                ws[W_DIM] = dim;
+                ws[W_MISC] = misc;
+                ws[W_ARRAY] = array;
+                ws[W_MISC2] = alpha;
+                let tl = true_len(&ws);
+                out.push(p_line(OPTS[k % 2], None, &ws));
+                if k % 4 == 0 {
+                    out.push(p_line("p", tl.or(Some(148 + 96)), &ws));
+                }
+            }
+        }
+    }
+    for &code in &dxgi {
+        for alpha in 0..8u32 {
+            let mut ws = base10.clone();
+            ws[W_DXGI] = code;
+            ws[W_MISC2] = alpha | (rng.next() as u32 & !7) * (alpha % 2);
+            out.push(p_line(OPTS[alpha as usize % 2], None, &ws));
+        }
+    }
+    // mask rows and perturbations
+    for r in MASK_ROWS {
+        let mut ws = base9m.clone();
+        ws[W_PF_FLAGS] = r.0;
+        ws[W_BITCOUNT] = r.1;
+        ws[W_RMASK] = r.2;
+        ws[W_RMASK + 1] = r.3;
+        ws[W_RMASK + 2] = r.4;
+        ws[W_RMASK + 3] = r.5;
+        out.push(p_line("s", None, &ws));
+        for j in 0..6 {
+            let mut p = ws.clone();
+            p[W_PF_FLAGS + [0, 2, 3, 4, 5, 6][j]] ^= 1 << rng.below(32);
+            out.push(p_line(OPTS[j % 2], None, &p));
+        }
+    }
+    // caps2: all 64 face sets x cube x volume
+    for faces in 0..64u32 {
+        for hi in [0u32, 0x200, 0x200000, 0x200200] {
+            let mut ws = base9f.clone();
+            ws[W_CAPS2] = faces << 10 | hi;
+            let tl = true_len(&ws);
+            out.push(p_line("s", None, &ws));
+            out.push(p_line("p", tl, &ws));
+        }
+    }
+
+    // ---- PRNG: valid headers with perturbed words and file lengths
+    let n1 = if thorough { 1_500_000 } else { 22_000 };
+    for i in 0..n1 {
+        let h = random_header(&mut rng, &dxgi);
+        let mut ws = header_words(&h);
+        let tl0 = true_len(&ws);
+        for _ in 0..rng.below(4) {
+            let idx = rng.below(ws.len() as u64) as usize;
+            ws[idx] = match rng.below(4) {
+                0 => field_values(&mut rng, &bset),
+                1 => ws[idx] ^ (1 << rng.below(32)),
+                2 => ws[idx].wrapping_add(1),
+                _ => ws[idx].wrapping_sub(1),
+            };
+        }
+        if rng.chance(1, 6) {
+            let n = rng.below(9);
+            for _ in 0..n {
+                ws.push(rng.next() as u32);
+            }
+        }
+        let fl = match rng.below(7) {
+            0 | 1 => None,
+            2 | 3 => tl0,
+            4 => tl0.map(|x| x + 1),
+            5 => tl0.map(|x| x.saturating_sub(1)),
+            _ => Some(match rng.below(3) {
+                0 => rng.below(1000),
+                1 => rng.next() >> rng.below(64),
+                _ => true_len(&ws).unwrap_or(0),
+            }),
+        };
+        let o = if fl.is_some() { "p" } else { OPTS[i % 2] };
+        out.push(p_line(o, fl, &ws));
+    }
+    // ---- PRNG: fully random words
+    let n2 = if thorough { 500_000 } else { 8_000 };
+    for i in 0..n2 {
+        let n = if rng.chance(1, 10) { rng.below(40) as usize } else { 37 };
+        let mut ws: Vec<u32> = (0..n).map(|_| any_u32(&mut rng, &bset)).collect();
+        if n > 0 && !rng.chance(1, 20) {
+            ws[0] = 0x20534444;
+        }
+        if n > W_PF_SIZE && !rng.chance(1, 5) {
+            ws[W_SIZE] = *rng.pick(&[124, 124, 124, 24]);
+            ws[W_PF_SIZE] = *rng.pick(&[32, 32, 32, 0, 24]);
+        }
+        if n > W_BITCOUNT {
+            match rng.below(4) {
+                0 => {
+                    ws[W_PF_FLAGS] |= 4;
+                    ws[W_FOURCC] = 0x30315844;
+                }
+                1 => {
+                    ws[W_PF_FLAGS] |= 4;
+                    ws[W_FOURCC] = *rng.pick(KNOWN_FOURCC);
+                }
+                2 => {
+                    ws[W_PF_FLAGS] &= !4;
+                    ws[W_BITCOUNT] = *rng.pick(&[8, 16, 24, 32, 0]);
+                }
+                _ => {}
+            }
+        }
+        if n > W_MISC2 && rng.chance(3, 4) {
+            ws[W_DXGI] = *rng.pick(&dxgi);
+            ws[W_DIM] = rng.range(2, 4) as u32;
+            ws[W_MISC2] = rng.below(5) as u32;
+        }
+        let fl = if rng.chance(1, 3) { Some(rng.next() >> rng.below(64)) } else { None };
+        let o = if fl.is_some() { "p" } else { OPTS[i % 2] };
+        out.push(p_line(o, fl, &ws));
+    }
+
+    // ---- conversions
+    for &code in &dxgi {
+        for alpha in 0..5u32 {
+            for (dim, misc, d) in [(3u32, 0u32, "-"), (3, 4, "-"), (4, 0, "3"), (2, 0, "-")] {
+                out.push(format!("X 10:12:10:{d}:3:{code}:{dim}:{misc}:1:{alpha}"));
+            }
+        }
+        out.push(format!("X 10:12:10:-:3:{code}:3:0:2:0"));
+        out.push(format!("X 10:12:10:-:3:{code}:4:4:1:0"));
+    }
+    for &cc in KNOWN_FOURCC.iter().chain([0u32, 1, 35, 37, 117, u32::MAX].iter()) {
+        for caps2 in [0u32, 0x200000, 0xFE00, 0x200 | 0x400, 0xFC00, 0x20FE00] {
+            out.push(format!("X 9:12:10:-:3:{caps2}:F:{cc}"));
+            out.push(format!("X 9:12:10:5:2:{caps2}:F:{cc}"));
+        }
+    }
+    for r in MASK_ROWS {
+        for caps2 in [0u32, 0x200000, 0xFE00, 0x7E00] {
+            out.push(format!("X 9:12:10:-:3:{caps2}:M:{}:{}:{}:{}:{}:{}", r.0, r.1, r.2, r.3, r.4, r.5));
+        }
+        out.push(format!("X 9:12:10:4:3:2097152:M:{}:{}:{}:{}:{}:{}", r.0, r.1, r.2, r.3, r.4, r.5));
+        for j in 0..6 {
+            let mut v = [r.0, r.1, r.2, r.3, r.4, r.5];
+            if j == 1 {
+                v[1] = *rng.pick(&[8, 16, 24, 32]);
+            } else {
+                v[j] ^= 1 << rng.below(32);
+            }
+            out.push(format!("X 9:12:10:-:3:0:M:{}:{}:{}:{}:{}:{}", v[0], v[1], v[2], v[3], v[4], v[5]));
+        }
+    }
+    let nx = if thorough { 300_000 } else { 6_000 };
+    for _ in 0..nx {
+        let mut h = random_header(&mut rng, &dxgi);
+        if rng.chance(1, 3) {
+            let (w, ht, d) = (any_u32(&mut rng, &bset), any_u32(&mut rng, &bset), any_u32(&mut rng, &bset));
+            h = h.with_dimensions(w, ht, if rng.chance(1, 2) { Some(d) } else { None });
+        }
+        if rng.chance(1, 6) {
+            h = h.with_mipmap_count(any_u32(&mut rng, &bset).max(1));
+        }
+        if let Header::Dx10(x) = &mut h {
+            if rng.chance(1, 5) {
+                x.misc_flag = MiscFlags::from_bits_retain(any_u32(&mut rng, &bset));
+            }
+            if rng.chance(1, 8) {
+                x.array_size = any_u32(&mut rng, &bset);
+            }
+        }
+        if let Header::Dx9(x) = &mut h {
+            if rng.chance(1, 5) {
+                x.caps2 = Caps2::from_bits_retain(any_u32(&mut rng, &bset));
+            }
+        }
+        out.push(format!("X {}", fmt_header(&h)));
+    }
+    out
 }
